@@ -85,6 +85,12 @@ META["C20"] = dict(
   note="Strict monotonicity is asserted for pairs at least 1e-6 C apart; closer pairs may round to the same value and must only not decrease.",
   technique="property-based testing (rapid) with pairwise (metamorphic) ordering relations")
 
+META["C17"] = dict(
+  text="Differential and robustness property test of the JSON runner: generated structured requests compared with direct runs (in-process for both encodings, and through the real ow-single binary where defaults apply), generated hostile requests and byte strings judged on exit status and on 'exactly one JSON document', and the JSON-safe array conversion against the extensional view model. One recorded finding (kernel panic in a cell goroutine) is excluded by its stderr signature. Exploration.",
+  design_ref="DESIGN.md section 4, C17",
+  note="ow-single is built from the working tree through -overlay into the harness module (no change to /repo).",
+  technique="differential property-based testing (rapid) + grammar-based fuzzing of a child process")
+
 import os, sys
 sys.path.insert(0, os.path.dirname(os.path.abspath(__file__)))
 from checks_config import CHECKS
